@@ -4,7 +4,8 @@ package main
 // namespaces (stream, stream errors, client, server, WebSocket framing, bind,
 // xml), the XML declaration printed in front of a stream header, the default
 // stream version, every string literal of internal/stream.Send in source order
-// (the pieces the header is printed from), which of Send's string parameters
+// (the pieces the header is printed from), the element names Send records in
+// the output stream info (xml.Name literals), which of Send's string parameters
 // reach the output through xml.EscapeText, and the IQ type names.
 //
 // This section never reports a translator error (that would stop every
@@ -91,7 +92,7 @@ func (g *gen) streamHdr() {
 	// and the parameters passed to xml.EscapeText.
 	g.p("(* ---- internal/stream/stream.go Send ---- *)\n")
 	var lits, wlits []string
-	var calls [][2]string
+	var calls, names [][2]string
 	escaped := map[string]bool{}
 	scan := func(fd *ast.FuncDecl, lits *[]string, inSend bool) {
 		if fd == nil || fd.Body == nil {
@@ -104,6 +105,40 @@ func (g *gen) streamHdr() {
 					if s, err := strconv.Unquote(x.Value); err == nil && s != "" {
 						*lits = append(*lits, s)
 					}
+				}
+			case *ast.CompositeLit:
+				// xml.Name{Space: <const>, Local: "..."} in Send: the opening element
+				// recorded in the output stream info
+				if se, is := x.Type.(*ast.SelectorExpr); is && inSend && se.Sel.Name == "Name" {
+					space, local := c12Missing, c12Missing
+					for _, el := range x.Elts {
+						kv, is := el.(*ast.KeyValueExpr)
+						if !is {
+							continue
+						}
+						k, _ := kv.Key.(*ast.Ident)
+						if k == nil {
+							continue
+						}
+						switch k.Name {
+						case "Space":
+							switch v := kv.Value.(type) {
+							case *ast.Ident:
+								space = v.Name
+							case *ast.SelectorExpr:
+								if id, is := v.X.(*ast.Ident); is {
+									space = id.Name + "." + v.Sel.Name
+								}
+							}
+						case "Local":
+							if bl, is := kv.Value.(*ast.BasicLit); is && bl.Kind == token.STRING {
+								if s, err := strconv.Unquote(bl.Value); err == nil {
+									local = s
+								}
+							}
+						}
+					}
+					names = append(names, [2]string{space, local})
 				}
 			case *ast.CallExpr:
 				if se, is := x.Fun.(*ast.SelectorExpr); is && se.Sel.Name == "EscapeText" && len(x.Args) == 2 {
@@ -151,6 +186,14 @@ func (g *gen) streamHdr() {
 	plist("write_attr_literals", wlits)
 	g.p("Definition send_attr_calls : list (bytes * bytes) := [")
 	for i, c := range calls {
+		if i > 0 {
+			g.p("; ")
+		}
+		g.p("(hex \"%s\", hex \"%s\")", hexOf([]byte(c[0])), hexOf([]byte(c[1])))
+	}
+	g.p("].\n")
+	g.p("Definition send_recorded_names : list (bytes * bytes) := [")
+	for i, c := range names {
 		if i > 0 {
 			g.p("; ")
 		}
